@@ -16,7 +16,7 @@ from harness import core
 from harness.props import _emission_common as EC
 
 MANIFEST_ENTRY = {
-    "text": "Lean theorem C04_repair_needs_tag (and its mixed-event lift _E) proves by induction over days, for every repairable emission, event schedule and horizon: a leak ended 'repaired by company c' has a first tag request, on a day T inside the period while it was active, issued by c, no tag request reached it on an earlier active day, and its end date is exactly T + max(1, repair delay + that request's reporting delay); C04_not_earlier / C04_never_later(_E): while waiting it is still active with an exact day count below the delay - a tagged leak is never left active beyond the delays; C04_natural_first(_E): a leak that ended 'natural' ended on its natural end date and either no tag request reached it while active or the natural end was strictly before T + max(1, delays); C04_first_tag_stays(_E): whatever the status, the company / reporting delay / detection date on record are those of the first tag request; C04_untagged_natural; C04_end_date: end date = start + days active (incl. pre-period) for all four emission classes; C04_first_tag_wins; C04_tag_needs_completed_survey / C04_tag_event_fields / C04_incomplete_survey_no_tags over tagCalls/tagEvs/latestTaggingSurvey and C04_delay_from_list over sampleDelay - these four definitions are compared on every run with the REAL ComponentLevelMethod.survey_site (generated reports: complete / incomplete, measured rates < 0, 0, > 0) and the REAL Source._get_rep_delay / _create_emission (list / int / dataframe column; the drawn index is recorded from np.random.choice). Model tied to the real classes by differential correspondence on every run and by trace conformance of whole simulations; the oracle recomputes the expected end from the events by plain date arithmetic, checks whole-run repairs against logged tagging calls and completed surveys, and whole-run tagged leaks that were not repaired against never-later / natural-first / first-tag-stays.",
+    "text": "Lean theorem C04_repair_needs_tag (and its mixed-event lift _E) proves by induction over days, for every repairable emission, event schedule and horizon: a leak ended 'repaired by company c' has a first tag request, on a day T inside the period while it was active, issued by c, no tag request reached it on an earlier active day, and its end date is exactly T + max(1, repair delay + that request's reporting delay); C04_not_earlier / C04_never_later(_E): while waiting it is still active with an exact day count below the delay - a tagged leak is never left active beyond the delays; C04_natural_first(_E): a leak that ended 'natural' ended on its natural end date and either no tag request reached it while active or the natural end was strictly before T + max(1, delays); C04_first_tag_stays(_E): whatever the status, the company / reporting delay / detection date on record are those of the first tag request; C04_untagged_natural; C04_end_date: end date = start + days active (incl. pre-period) for all four emission classes; C04_first_tag_wins; C04_tag_needs_completed_survey / C04_tag_event_fields / C04_incomplete_survey_no_tags over tagCalls/tagEvs/latestTaggingSurvey and C04_delay_from_list over sampleDelay - these four definitions are compared on every run with the REAL ComponentLevelMethod.survey_site (generated reports: complete / incomplete, measured rates < 0, 0, > 0) and the REAL Source._get_rep_delay / _create_emission (list / int / dataframe column; the drawn index is recorded from np.random.choice). Model tied to the real classes by differential correspondence on every run and by trace conformance of whole simulations; the oracle recomputes the expected end from the events by plain date arithmetic, checks whole-run repairs against logged tagging calls and completed surveys, and whole-run tagged leaks that were not repaired against never-later / natural-first / first-tag-stays. run_shift / C04_period_shift: the life-cycle is calendar-free (a period starting k days later shifts only the two recorded dates), checked against the real classes under eight first simulated days (New Year, Feb 29, day-of-year 366, Dec 31, one year later). Hardening stages shared with C02/C03 (same-process history, shared inputs, copies / pickles, copy-hook table, marker-like method names, boundary-period / two-simulation / pool-mode whole runs).",
     "design_ref": "DESIGN.md 5.4, 4.1",
     "note": "convention fixed in DESIGN.md 5.4: with day granularity the earliest end is tag day + 1, delays 0 and 1 coincide (max 1 delta). trusted: Lean kernel + standard axioms; model tied by sampled/structured-exhaustive correspondence; harness wrappers that log tagging calls and survey steps (observation only)",
     "technique": "Lean 4 history-invariant proof over the emission state machine + differential correspondence + trace conformance + direct oracle",
@@ -217,7 +217,13 @@ def survey_stage(ctx):
     specs = list(survey_specs_exhaustive()) + [survey_spec(ctx.rng) for _ in range(ctx.pick(3000, 60000))]
     model = core.LeanDriver("drv_emission").run([E.survey_model_line(sp) for sp in specs])
     for sp, ml in zip(specs, model):
-        out = E.run_survey_site(sp)
+        try:
+            out = E.run_survey_site(sp)
+        except (Exception, SystemExit) as e:  # noqa: BLE001
+            ctx.disagree("emission/survey_site(tagCalls,tagEvs,latestTaggingSurvey)", {"survey_spec": sp}, ml,
+                         "implementation: %s: %s" % (type(e).__name__, e))
+            ctx.count("impl_exception")
+            continue
         il = E.survey_impl_line(sp, out)
         ctx.evaluations += 1
         if il != ml:
@@ -251,6 +257,11 @@ def delay_case(rng):
 
 def delay_oracle(ctx, kind, values, seed, out):
     inp = {"delay_case": [kind, values, seed], "implementation": out}
+    if kind in ("list", "column") and not values:
+        # empty collection: there is nothing to choose from (model: sampleDelay [] i = none)
+        if not out["exited"]:
+            ctx.violate("C04:delay:from-empty-configuration", "a repair delay was produced although no value is configured", inp)
+        return
     if kind == "missing-column":
         if not out["exited"]:
             ctx.violate("C04:delay:unknown-column-accepted", "a repair-delay column that does not exist did not stop the run", inp)
@@ -268,12 +279,19 @@ def delay_oracle(ctx, kind, values, seed, out):
 def delay_stage(ctx):
     from harness.adapters import emission as E
 
-    cases = [("list", [3], 1), ("list", [2, 9], 2), ("int", [5], 3), ("column", [1, 2, 3], 4), ("missing-column", [1], 5)]
+    cases = [("list", [3], 1), ("list", [2, 9], 2), ("int", [5], 3), ("column", [1, 2, 3], 4), ("missing-column", [1], 5),
+             ("list", [], 6), ("column", [], 7), ("list", [0], 8), ("list", [0, 0, 365], 9)]
     cases += [delay_case(ctx.rng) for _ in range(ctx.pick(1500, 20000))]
     lines, owners = [], []
     hit = {}
     for kind, values, seed in cases:
-        out = E.run_get_rep_delay(kind, values, seed)
+        try:
+            out = E.run_get_rep_delay(kind, values, seed)
+        except Exception as e:  # noqa: BLE001
+            ctx.disagree("emission/_get_rep_delay(sampleDelay)", {"delay_case": [kind, values, seed]},
+                         "a configured value" if values else "-", "implementation: %s: %s" % (type(e).__name__, e))
+            ctx.count("impl_exception")
+            continue
         ctx.evaluations += 1
         delay_oracle(ctx, kind, values, seed, out)
         ctx.count("rep_delay:%s" % kind)
@@ -322,9 +340,10 @@ def run(ctx):
     for (c, res, ml, il) in results[:3]:
         ctx.sample({"case": list(c), "impl": il.split(" | ")[0], "expected": expected(c)})
     EC.shared_component_stage(ctx, lambda ctx, case, res, base, w: oracle_case(ctx, case, res))
+    EC.hardening_stages(ctx, results, lambda ctx, case, res, base, origin: oracle_case(ctx, case, res))
     survey_stage(ctx)
     delay_stage(ctx)
-    EC.wholerun_stage(ctx, 2, 12, wholerun_record)
+    EC.wholerun_stage(ctx, 4, 12, wholerun_record)
     EC.finish_hit_rates(ctx)
     for k in ("wholerun_program_repaired", "wholerun_tagged_still_active", "wholerun_tagged_ended_natural"):
         ctx.counts.setdefault(k, 0)
